@@ -403,6 +403,45 @@ Proof.
     + left. by destruct (M3 eq_refl).
 Qed.
 
+(* ---- ... and over HTTP: an accepted announce request registers its peer under the transport source address (the remote
+   address, or the configured real-IP header) when spoofing is off or no address parameter is supplied, under the supplied
+   parameter when spoofing is on - and the swarm afterwards lists exactly that key *)
+Theorem http_announce_registers_address parse_ip header_get split_host t o ops clock uri remote r q :
+  (∀ s ip, parse_ip s = Some ip → wf_bytes ip = true ∧ (length ip = 4 ∨ length ip = 16)%nat) →
+  Forall sop_sane ops → wf_bytes uri = true →
+  HttpParse.parse_announce parse_ip header_get split_host o uri remote = HttpParse.Accept (r, q) →
+  let a := ann_of_areq r in
+  (HttpParse.o_spoof o = false ∨ SourceIPP.client_supplied q = None →
+     ∃ ip, parse_ip (SourceIPP.transport_source header_get split_host o remote) = Some ip ∧ p_ip (a_peer a) = SourceIPP.stored_form ip) ∧
+  (∀ s, HttpParse.o_spoof o = true → SourceIPP.client_supplied q = Some s →
+     ∃ ip, parse_ip s = Some ip ∧ p_ip (a_peer a) = SourceIPP.stored_form ip) ∧
+  let sp' := (http_announce_step spec_if parse_ip header_get split_host t o (run_spec ops) clock uri remote).1 in
+  let sw := swarm_of sp' (a_ih a) (a_v6 a) in
+  (a_event a ≠ EvStopped → seeders sw !! a_key a = Some clock ∨ leechers sw !! a_key a = Some clock).
+Proof.
+  intros Ho Hs Hw E a.
+  assert (P : HttpParse.announce_of_params parse_ip header_get split_host o q remote = HttpParse.Accept r).
+  { unfold HttpParse.parse_announce in E. destruct (Query.parse_url_data uri) as [e|q']; [discriminate|].
+    destruct (HttpParse.announce_of_params parse_ip header_get split_host o q' remote) as [r'|e|] eqn:P; try discriminate.
+    injection E as <- <-. exact P. }
+  split; [|split].
+  - intros [Ns|Nc].
+    + destruct (SourceIPP.http_registered_nospoof _ _ _ _ _ _ _ Ns P) as (ip & H1 & H2 & _). by exists ip.
+    + destruct (SourceIPP.http_registered_spoof_absent _ _ _ _ _ _ _ Nc P) as (ip & H1 & H2 & _). by exists ip.
+  - intros s Sp Sc. destruct (SourceIPP.http_registered_spoof_param _ _ _ _ _ _ _ _ Sp Sc P) as (ip & H1 & H2 & _). by exists ip.
+  - (* the step does not panic in a reachable state, so it took the branch that applies the announce *)
+    destruct (http_announce_no_panic parse_ip header_get split_host t o (run_spec ops) clock uri remote Ho
+                (run_spec_keys_ok ops Hs) Hw) as (sp1 & v & Est & _).
+    cbn zeta. rewrite Est. cbn [fst]. unfold http_announce_step in Est. rewrite E in Est. fold a in Est.
+    destruct (respond spec_if a (run_spec ops)) as [[[c i] ps]|]; [|discriminate].
+    destruct (http_announce_value t (r_compact r) a c i ps); [|discriminate].
+    injection Est as <- _. intros Hev. destruct (a_event a) eqn:Ev.
+    + destruct (Z.eq_dec (a_left a) 0) as [L|L]; [left; apply seeder_listed; [by left|exact L]|right; apply leecher_listed; [by left|exact L]].
+    + destruct (Z.eq_dec (a_left a) 0) as [L|L]; [left; apply seeder_listed; [by right|exact L]|right; apply leecher_listed; [by right|exact L]].
+    + done.
+    + left. by destruct (completed_moves a clock (run_spec ops) Ev).
+Qed.
+
 (* ---- C02 at the level of the response hook, for any store state: the peers of an announce response are the
    decoded keys of a selection that satisfies the declarative selection_spec with respect to the swarm's current
    seeder and leecher keys and the request's (sanitised) numwant; when that selection is empty the response is
